@@ -78,27 +78,28 @@ func coqSel(s Selection, fl *interner) string {
 	ids := func(xs []string) string {
 		return c.MapList(xs, func(n string) string { return c.Z(fl.id(n)) })
 	}
-	return c.Tuple(ids(s.Start), ids(s.User), ids(s.End))
+	return "(SEL " + ids(s.Start) + " " + ids(s.User) + " " + ids(s.End) + ")"
 }
 
 func coqLoad(cf *Config, code int64) string {
 	n := &names{newInterner(), newInterner()}
-	return c.Tuple(cf.coq(n), c.Z(code))
+	return "(LoadCase " + cf.coq(n) + " " + c.Z(code) + ")"
 }
 
 func coqTxn(cf *Config, t *Txn, r *TxnResult) string {
 	n := &names{newInterner(), newInterner()}
 	cfg := cf.coq(n)
-	var s1, s2 string
+	var s1 string
+	has2 := false
+	s2 := coqSel(Selection{}, n.flows)
 	if t.Dir == "req" {
 		s1 = coqSel(r.SelReq, n.flows)
-		s2 = "None"
 		if r.SelRes.Found {
-			s2 = c.Some(coqSel(r.SelRes, n.flows))
+			has2 = true
+			s2 = coqSel(r.SelRes, n.flows)
 		}
 	} else {
 		s1 = coqSel(r.SelRes, n.flows)
-		s2 = "None"
 	}
 	var hdrs []string
 	seen := map[string]bool{}
@@ -111,7 +112,7 @@ func coqTxn(cf *Config, t *Txn, r *TxnResult) string {
 		}
 	}
 	evs := c.MapList(r.Events, func(e Event) string {
-		return c.Tuple(c.Z(n.flows.id(e.Flow)), c.Z(n.keyID(e.Key)), c.B(e.Dir == "req"), c.Z(condID(e.Cond)))
+		return "(EV " + c.Z(n.flows.id(e.Flow)) + " " + c.Z(n.keyID(e.Key)) + " " + c.B(e.Dir == "req") + " " + c.Z(condID(e.Cond)) + ")"
 	})
 	code := int64(0)
 	switch {
@@ -120,7 +121,7 @@ func coqTxn(cf *Config, t *Txn, r *TxnResult) string {
 	case r.Answered:
 		code = 1
 	}
-	return c.Tuple(cfg, c.Tuple(s1, s2), c.List(hdrs), c.B(t.Dir == "req"), c.Tuple(evs, c.Z(code)))
+	return "(TxnCase " + cfg + " " + s1 + " " + c.B(has2) + " " + s2 + " " + c.List(hdrs) + " " + c.B(t.Dir == "req") + " " + evs + " " + c.Z(code) + ")"
 }
 
 // modelable: the transaction model covers Filter and GenerateResponse (and a
@@ -157,9 +158,30 @@ func modelable(cf *Config) bool {
 
 // ---------------------------------------------------------------- recording
 
+// debugging aid: C05_DUMP=<file> appends one line per configuration
+func dump(label string, r *JobResult) {
+	fn := os.Getenv("C05_DUMP")
+	if fn == "" {
+		return
+	}
+	if fh, err := os.OpenFile(fn, os.O_APPEND|os.O_CREATE|os.O_WRONLY, 0o644); err == nil {
+		var outs []string
+		for _, t := range r.Txns {
+			s := t.Outcome
+			if t.Outcome == "error" || t.Outcome == "panic" {
+				s += "(" + t.Text + ")"
+			}
+			outs = append(outs, s)
+		}
+		fmt.Fprintf(fh, "%s\t%s\t%s\t%s %s\t%s\n", label, r.LoadStatus, r.RejectText, r.EngineLoad, r.EngineText, strings.Join(outs, ","))
+		fh.Close()
+	}
+}
+
 func record(o *c.Out, it *Item, r *JobResult) {
 	cf := &it.Config
 	lo := loadObs(r)
+	dump(it.Label, r)
 	k := Case{Kind: "load", Label: it.Label, Config: cf, Load: lo}
 	fam := it.Label
 	if i := strings.Index(fam, ":"); i >= 0 {
@@ -241,6 +263,7 @@ func runRaw(o *c.Out, items []RawItem) {
 		it := &items[i]
 		r := res[i]
 		lo := loadObs(r)
+		dump(it.Label, r)
 		k := Case{Kind: it.Kind, Label: it.Label, Flows: it.Flows, Quotas: it.Quotas, Load: lo}
 		o.Case0(k, r.Accepted)
 		o.Count(it.Kind + ":verdict=" + r.LoadStatus)
@@ -322,7 +345,7 @@ func main() {
 	var s2 func(int) bool
 	switch o.Tier {
 	case "quick":
-		s2 = every(23)
+		s2 = every(5)
 	case "search":
 		off := r.Intn(7)
 		s2 = func(i int) bool { return i%7 == off }
@@ -336,7 +359,7 @@ func main() {
 	var q2 func(int) bool
 	switch o.Tier {
 	case "quick":
-		q2 = every(11)
+		q2 = every(3)
 	case "search":
 		off := r.Intn(5)
 		q2 = func(i int) bool { return i%5 == off }
@@ -360,7 +383,7 @@ func main() {
 		}
 	}
 	// 5. random
-	nr := o.Scale(500, 6000, 3000)
+	nr := o.Scale(900, 8000, 3000)
 	for i := 0; i < nr; i++ {
 		g := &rgen{r: r.Fork(uint64(i) + 1000)}
 		maxp := 3
@@ -378,6 +401,7 @@ func main() {
 
 	// 6. quota files and malformed traffic (monitor only)
 	runRaw(o, quotaItems())
+	runRaw(o, rawFlowItems())
 	runRaw(o, trafficItems(r.Fork(99), o.Scale(60, 400, 200)))
 
 	o.Note(fmt.Sprintf("child processes: %d started, %d died or were killed", childSpawns, childDeaths))
